@@ -39,7 +39,7 @@ ASSUMPTIONS = [
 
 def GATES(tier):
     return [("reads_judged", 3000), ("stale_candidates", 300), ("cached_reads_without_getter", 200), ("override_reads", 50), ("chain_reads", 200),
-            ("failed_mutations", 50), ("copy_results_checked", 200), ("wildcard_graphs", 3), ("subclass_dependants", 3), ("post_init_fills", 3), ("subclass_overrides_property", 5), ("plain_subclass_dependants", 20), ("subclass_redefaults_dependant", 5),
+            ("failed_mutations", 50), ("copy_results_checked", 200), ("wildcard_graphs", 3), ("subclass_dependants", 3), ("post_init_fills", 3), ("subclass_overrides_property", 5), ("plain_subclass_overrides_property", 5), ("managed_property_graphs", 5), ("subclass_overrides_managed_property", 1), ("plain_subclass_overrides_managed_property", 1), ("plain_subclass_dependants", 20), ("subclass_redefaults_dependant", 5),
             ("frozen_graphs", 5), ("deleter_graphs", 5), ("post_init_mutates_dependency", 5)] + [
         (f"entry:{e}", 10) for e in ("setattr", "delattr", "with", "transform_attr", "reset_attr", "with_item", "without_item", "update", "transform", "reset")
     ]
@@ -57,7 +57,7 @@ def make_source(g):
         f"    b: int = Attr(default=10{', invalidated_by=' + repr(g['b_inv']) if g['b_inv'] else ''})",
         "    c: List[int] = [1, 2]",
         "    u = 7",
-    ]
+    ] + (["    p: Any  # annotated: the property below is the default of a managed attribute"] if g.get("p_managed") else [])
     for name in ("p", "q"):
         spec = g[name]
         opts = [f"cache={spec['cache']}"]
@@ -80,6 +80,10 @@ def make_source(g):
         L += [f"    @spec_property(cache={sp['cache']}, invalidated_by={sp['inv']!r})", "    def p(self):  # overrides M.p with a longer dependency list", "        PROBE.enter('get:p')", f"        return ['p', {reads}]", ""]
     # an undecorated leaf subclass adding a dependant of its own (it shares M's metadata)
     L += ["class PL(M):", "    @spec_property(cache=True, invalidated_by=['a'])", "    def t(self):", "        PROBE.enter('get:t')", "        return ['t', _rd(self, 'a')]", ""]
+    if g.get("pl_p"):
+        sp = g["pl_p"]
+        reads = ", ".join(f"_rd(self, {d!r})" for d in sp["reads"])
+        L += [f"    @spec_property(cache={sp['cache']}, invalidated_by={sp['inv']!r})", "    def p(self):  # overrides M.p with a longer dependency list", "        PROBE.enter('get:p')", f"        return ['p', {reads}]", ""]
     return "\n".join(L)
 
 
@@ -126,6 +130,8 @@ class Model:
             return {"cache": True, "inv": ["a"], "reads": ["a"]}
         if n == "p" and self.cname == "S" and self.g.get("s_p"):
             return self.g["s_p"]
+        if n == "p" and self.cname == "PL" and self.g.get("pl_p"):
+            return self.g["pl_p"]
         return self.g[n]
 
     def fork(self):
@@ -185,6 +191,17 @@ def run(ctx, params):
             inv = list(g0["p"]["inv"]) + [extra[0]]
             g["s_p"] = {"cache": True, "inv": inv, "reads": reads_of(inv)}
             ctx.count("subclass_overrides_property")
+        if "*" not in g0["p"]["inv"] and extra and rng.random() < 0.4:
+            inv = list(g0["p"]["inv"]) + [extra[-1]]
+            g["pl_p"] = {"cache": True, "inv": inv, "reads": reads_of(inv)}
+            ctx.count("plain_subclass_overrides_property")
+        if rng.random() < 0.4:
+            g["p_managed"] = True
+            ctx.count("managed_property_graphs")
+            if g.get("s_p"):
+                ctx.count("subclass_overrides_managed_property")
+            if g.get("pl_p"):
+                ctx.count("plain_subclass_overrides_managed_property")
         if g["b_inv"] and rng.random() < 0.5:
             g["s_redefault_b"] = True
             ctx.count("subclass_redefaults_dependant")
@@ -197,7 +214,7 @@ def run(ctx, params):
         probe = faults.Probe()
         ns = cg.exec_module(make_source(g), extra={"PROBE": probe, "_rd": _rd}, prefix="verif_c11").__dict__
         glabel = (f"p(c={int(g['p']['cache'])},inv={g['p']['inv']}) q(c={int(g['q']['cache'])},inv={g['q']['inv']}) b_inv={g['b_inv']} post_init={g['post_init']}"
-                  f"{' frozen' if g['frozen'] else ''}{' p.deleter' if g['p_deleter'] else ''}{' S.p.inv=' + str(g['s_p']['inv']) if g.get('s_p') else ''}")
+                  f"{' frozen' if g['frozen'] else ''}{' p.deleter' if g['p_deleter'] else ''}{' S.p.inv=' + str(g['s_p']['inv']) if g.get('s_p') else ''}{' PL.p.inv=' + str(g['pl_p']['inv']) if g.get('pl_p') else ''}{' p:managed' if g.get('p_managed') else ''}")
         if "*" in g["p"]["inv"] or "*" in g["q"]["inv"]:
             ctx.count("wildcard_graphs")
         if g["post_init"]:
@@ -281,7 +298,7 @@ def run(ctx, params):
                         desc += f" -> {type(e).__name__}"
                     if kind == "fail":
                         ctx.count("failed_mutations")
-                    changed_attrs = changed_by(entry, target) if ok else []
+                    changed_attrs = changed_by(entry, target, g) if ok else []
                     subject_m = m
                     if ok and not inplace and entry not in ("setattr", "delattr"):
                         # copy-on-write: the receiver keeps its slots, the result starts from a copy of them
@@ -291,7 +308,19 @@ def run(ctx, params):
                             ctx.count("copy_results_checked")
                             if len(live) > 6:
                                 live.pop(0)
+                    if "p" in changed_attrs and subject_m.slots["p"][0] == "empty":
+                        # resetting a managed property that holds no cached / overriding value changes nothing: whether its
+                        # dependants are discarded all the same is not specified - the model follows what is observed
+                        changed_attrs = [ca for ca in changed_attrs if ca != "p"]
+                        subject_x = res if (res is not None and res is not inst and not inplace) else inst
+                        others = {d for ca in changed_attrs for d in subject_m.dependants(ca)}
+                        for d in subject_m.dependants("p"):
+                            if d in subject_m.slots and d not in others and d not in subject_x.__dict__:
+                                subject_m.slots[d] = ("empty", None)
+                        ctx.count("noop_reset_of_managed_property")
                     for ca in changed_attrs:
+                        if ca in subject_m.slots:
+                            subject_m.slots[ca] = ("empty", None)
                         for d in subject_m.dependants(ca):
                             if d in subject_m.slots:
                                 subject_m.slots[d] = ("empty", None)
@@ -359,9 +388,10 @@ def run(ctx, params):
                 ctx.sample({"graph": glabel, "history": trace[:10]})
 
 
-def changed_by(entry, target):
+def changed_by(entry, target, g):
     if entry == "reset":
-        return ["a", "b", "c", "d"]
+        # (every managed attribute goes back to its default - a managed property to its getter)
+        return ["a", "b", "c", "d"] + (["p"] if g.get("p_managed") else [])
     return [target]
 
 
